@@ -557,6 +557,37 @@ def check_routes(spec, path, tokens, width, ansi):
     return fails
 
 
+def check_routes_one_app(spec, paths, width):
+    """-> [(signature, what, path)]"""
+    fails = []
+    old = os.environ.get("COLUMNS")
+    os.environ["COLUMNS"] = str(width)
+    try:
+        try:
+            app = build_app(spec)
+        except Exception:
+            return []
+        for k, path in enumerate(paths):
+            tokens = [n["name"] for n in path]
+            line = (["help"] + tokens) if k % 2 == 0 else (tokens + ["--help"])
+            try:
+                got = run_line(app, line, False)
+                want = run_line(build_app(spec), line, False)
+            except Exception as e:
+                fails.append(("run-raises|one-application", "%r on a reused application raised %r" % (line, e), path))
+                break
+            if got != want:
+                fails.append(("pages-differ|one-application", "%r on an application that has already printed %d help pages differs from "
+                              "a new application (status %r/%r, stdout equal=%s)" % (line, k, got[0], want[0], got[1] == want[1]), path))
+                break
+    finally:
+        if old is None:
+            os.environ.pop("COLUMNS", None)
+        else:
+            os.environ["COLUMNS"] = old
+    return fails
+
+
 # ---------------------------------------------------------------------------------------------- driver
 class _Failer:
     """at most 3 recorded failures per signature so that every distinct signature is visible"""
@@ -662,6 +693,8 @@ def corner_trees():
         # a sub-command that is itself called like the help command, next to an ordinary one
         app([_cmd("config", subs=[_cmd("get", args=[_arg("key")]), _cmd("help", args=[_arg("topic")]),
                                   _cmd("deep", subs=[_cmd("help", opts=[_opt("hh", "k")])])])]),
+        # two commands with the same last name under different parents (and different pages)
+        app([_cmd("remote", subs=[_cmd("add", args=[_arg("url", A_REQUIRED)])]), _cmd("user", subs=[_cmd("add", opts=[_opt("admin", "a")])])]),
         # elements without description (and nothing else special)
         app([_cmd("plain", opts=[_opt("nodesc", "x", desc=None)], args=[_arg("noarg", desc=None)])]),
     ]
@@ -734,6 +767,12 @@ def bounded(ctx):
         done_trees += 1
         th = tree_hash(spec)
         paths = [[]] + [p for p in enabled_paths(spec) if not any(n["anonymous"] for n in p)]
+        # all help requests of the tree one after the other on ONE application object: every page is the page a new
+        # application prints for that request
+        ctx.case([th, "one-application"], nontrivial=len(paths) > 2, sample={"tree": th, "line": "help ... (one application)"})
+        for sig, what, pth in check_routes_one_app(spec, paths, QUICK_WIDTHS[done_trees % 8]):
+            fail(sig, what, {"tree": spec, "page": path_index(spec, pth), "tokens": [n["name"] for n in pth], "width": QUICK_WIDTHS[done_trees % 8],
+                             "ansi": False, "one_app": True})
         for path in paths:
             pidx = path_index(spec, path)
             for tokens in (name_variants(path, rng) if path else [[]]):
@@ -758,6 +797,9 @@ def replay_bounded(check_id, failure):
     sig = failure["signature"].split("|", 1)[1]
     if check_id.endswith(".pages"):
         got = check_page(spec, build_app(spec), path, w["width"], w["ansi"])
+    elif w.get("one_app"):
+        paths = [[]] + [p for p in enabled_paths(spec) if not any(n["anonymous"] for n in p)]
+        got = [(g[0], g[1]) for g in check_routes_one_app(spec, paths, w["width"])]
     else:
         got = check_routes(spec, path, w["tokens"], w["width"], w["ansi"])
     hit = [g for g in got if g[0] == sig]
